@@ -262,6 +262,9 @@ func MethodInfos(c *model.Conv) ([]*MethodInfo, *model.Reject) {
 			rej.Msg = m.Name + ": " + rej.Msg
 			return nil, rej
 		}
+		if m.NoExec {
+			continue
+		}
 		mi := &MethodInfo{Name: m.Name, Top: res.Top, Subs: res.Subs, Source: 0, Target: -1, Err: m.Err, Update: m.Update}
 		if m.Default != nil {
 			mi.Default = &DefaultInfo{Func: m.Default.Name, Update: m.Settings.DefaultUpdate, HasSource: m.Default.Source != nil}
